@@ -90,7 +90,7 @@ def run_tlc(spec, cfg, workdir, env=None, workers=NCPU, xmx="8g", timeout=3600, 
     meta = os.path.join(workdir, "meta")
     shutil.rmtree(meta, ignore_errors=True)
     cmd = ["java", "-XX:+UseParallelGC", "-Xmx" + xmx, "-cp", TLA_CP, "tlc2.TLC",
-           "-workers", str(workers), "-metadir", meta, "-config", cfgp] + list(extra) + [spec + ".tla"]
+           "-noGenerateSpecTE", "-workers", str(workers), "-metadir", meta, "-config", cfgp] + list(extra) + [spec + ".tla"]
     e = dict(os.environ)
     e.update(env or {})
     t0 = time.time()
